@@ -13,7 +13,7 @@ Decides (each a necessary condition, together far from sufficient):
 import json
 import os
 
-from ..astq import (strip, strip_casts, member_of_this, writes, calls, call_args, call_object,
+from ..astq import (strip, strip_casts, written_field, norm, member_of_this, writes, calls, call_args, call_object,
                     in_macro, src, literal_value)
 from ..callgraph import CallGraph
 from ..cfg import CFG
@@ -308,6 +308,67 @@ def rule_dtor_drain(chk, prog):
             r.ok("%s: removeObjectFromQueuedActions" % f.q, f.loc(cs[0]))
 
 
+def rule_local_escape(chk, prog):
+    r = chk.rule("LOCAL-ADDR-ESCAPE", "no function stores the address of one of its automatic variables (`member = &local`, `global = &local`, "
+                 "`member.push_back(&local)`) into an object that outlives the variable, unless the store is undone on every path before "
+                 "the variable dies (reviewed: none needed today); functions with address-of-local expressions are counted as examined", floor=10)
+    n_fun = 0
+    for f in prog.all_functions():
+        if f.tmpl == "pattern" or f.body is None or "/tests/" in f.file:
+            continue
+        locs = {n["did"] for n in f.nodes() if n.get("k") == "VarDecl" and not n.get("static") and not str(n.get("t", "")).rstrip().endswith("&")}
+        if not locs:
+            continue
+
+        def addr_of_local(e):
+            e = strip_casts(e)
+            if e is not None and e.get("k") == "UnaryOperator" and e.get("op") == "&":
+                t = strip_casts(e["ch"][0])
+                if t is not None and t.get("k") == "DeclRefExpr" and t.get("rk") == "Var" and t.get("did") in locs:
+                    return t
+            return None
+        seen_addr = False
+        for n in f.nodes():
+            if n.get("k") == "UnaryOperator" and n.get("op") == "&" and addr_of_local(n) is not None:
+                seen_addr = True
+                break
+        if not seen_addr:
+            continue
+        n_fun += 1
+        r.count()
+        bad = None
+        for lhs, node, op in writes(f):
+            if op != "=":
+                continue
+            t = addr_of_local(node["ch"][1])
+            if t is None:
+                continue
+            tgt = strip_casts(lhs)
+            fq = written_field(lhs)[0]
+            is_global = tgt.get("k") == "DeclRefExpr" and str(tgt.get("ref")) in prog.vars
+            through_this = fq and (tgt.get("k") == "MemberExpr" and (not tgt.get("ch") or strip_casts(tgt["ch"][0]).get("k") == "CXXThisExpr"))
+            if is_global or through_this:
+                bad = (node, "`%s`: the address of the automatic variable `%s` is stored in %s, which outlives it" % (
+                    norm(node), t.get("ref"), "a global" if is_global else "a member of *this"))
+                break
+        if not bad:
+            for c in calls(f):
+                if c.get("k") == "CXXMemberCallExpr" and c.get("cname", "").startswith("std::") and c["cname"].split("::")[-1] in ("push_back", "insert", "emplace_back"):
+                    o = call_object(c)
+                    o = strip_casts(o) if o is not None else None
+                    if o is not None and o.get("k") == "MemberExpr" and o.get("rk") == "Field" and (not o.get("ch") or strip_casts(o["ch"][0]).get("k") == "CXXThisExpr"):
+                        for a in call_args(c):
+                            t = addr_of_local(a)
+                            if t is not None:
+                                bad = (c, "`%s`: the address of the automatic variable `%s` is put into a member container" % (norm(c)[:80], t.get("ref")))
+        if bad:
+            r.bad(f.q, f.loc(bad[0]), bad[1] + " (dangling pointer after the scope ends)")
+        else:
+            r.ok(f.q, f.where())
+    if n_fun == 0:
+        raise AnalysisBroken("LOCAL-ADDR-ESCAPE examined no function")
+
+
 def run(chk):
     prog = chk.load()
     cg = CallGraph(prog)
@@ -316,3 +377,4 @@ def run(chk):
     rule_own_dtor(chk, prog, cg)
     rule_del_guard(chk, prog)
     rule_erase_advance(chk, prog)
+    rule_local_escape(chk, prog)
